@@ -13,6 +13,10 @@ REWRITES = [
     Rewrite('R2-generics', r'pub writer: Wr,', 'pub writer: Writer,'),
     Rewrite('R2-generics', r'\(writer: Wr, ', '(writer: Writer, '),
     Rewrite('R3-io', r'io::Result<\(\)>', 'IoResult'),
+    # R5: the generic attribute iterator is a slice of (name, value) pairs (every slice iterator is such an iterator)
+    Rewrite('R5-attriter', r"fn start_elem<'a, AttrIter>\(&mut self, name: QualName, attrs: AttrIter\) -> IoResult\s*where\s*AttrIter: Iterator<Item = AttrRef<'a>>,",
+            "fn start_elem<'a>(&mut self, name: QualName, attrs: &Vec<AttrRef<'a>>) -> IoResult", min_count=1),
+    Rewrite('R5-attriter', r'for \(name, value\) in attrs \{', 'for __a in __it1: attrs.iter() { let (name, value) = (__a.0, __a.1);', min_count=2),
     # R8: range indexing of byte slices
     Rewrite('R8-slice', r'&slice\[\.\.result\]', 'slice_subrange(slice, 0, result)'),
     Rewrite('R8-slice', r'&bytes\[search_start\.\.\]', 'slice_subrange(bytes, search_start, bytes.len())'),
@@ -44,9 +48,9 @@ PARTS = [
     Item(F, 'struct', 'ElemInfo', rewrites=(Rewrite('R-vis', r'\bstruct ElemInfo', 'pub struct ElemInfo'), Rewrite('R-vis', r'(?m)^(\s+)(html_name|ignore_children):', r'\1pub \2:'))),
     Item(F, 'struct', 'HtmlSerializer', rewrites=(Rewrite('R-vis', r'(?m)^(\s+)(opts|stack):', r'\1pub \2:'),)),
     Item(F, 'fn', 'tagname'),
-    hs('new'), hs('parent'), hs('write_escaped'),
+    hs('new'), hs('parent'), hs('write_escaped'), hs('start_elem'),
     hs('end_elem'), hs('write_text'), hs('write_comment'), hs('write_doctype'), hs('write_processing_instruction'),
     Raw('} // verus!\nfn main() {}'),
 ]
-DROPS = ['the Write type parameter (the writer is a model with a ghost byte log)', 'start_elem (generic attribute iterator): not under contract',
+DROPS = ['the Write type parameter (the writer is a model with a ghost byte log)', 'the Serializer trait (start_elem is checked as an inherent method over a slice of attributes)',
          'log macro warn!', 'doc comments and derives']
